@@ -77,10 +77,11 @@ def run(R):
         r = c.out
         V = xi * 65536
         goal = z3.And(r >= 0, z3.Or(r == 0, (r - 1) * (r - 1) < V), V < (r + 1) * (r + 1))
-        R.verify("stdm/%s/within-1ulp" % fma, [xi], [c], z3.And(xi >= 0, xi < XLIM), goal, also_ub=True,
-                 portfolio=("z3", "cvc5"), timeout=120,
-                 note="sqrt_std_math in real arithmetic with one relative rounding error per FP operation and the IEEE "
-                      "contract for libm sqrt: |result - sqrt(x)*65536| < 1 for every 0 <= x < 2^47")
+        for (tag, lo_, hi_, adv) in (("", 0, 1 << 47, False), ("/2^47..2^48 (lemma for hypot)", 1 << 47, XLIM, True)):
+            R.verify("stdm/%s/within-1ulp%s" % (fma, tag), [xi], [c], z3.And(xi >= lo_, xi < hi_), goal, also_ub=True,
+                     portfolio=("z3", "cvc5"), timeout=120, advisory=adv,
+                     note="sqrt_std_math in real arithmetic with one relative rounding error per FP operation and the IEEE "
+                          "contract for libm sqrt: |result - sqrt(x)*65536| < 1 for every x of the range")
     R.assume_note("std algorithm: doubles are reals with |relative error| <= 2^-53 per rounding; int->double exact below 2^53 "
                   "(checked as a side condition), division by 65536 exact, libm sqrt correctly rounded (IEEE-754 / glibc); "
                   "monotonicity of the std algorithm is outside this abstraction and not claimed")
@@ -182,7 +183,7 @@ def abacus_invariant(R, h, x):
             # correct under another invariant): decide the bit-length class of this step by plain unrolling
             cb = R.call(h, "abacus", [x], opts=E.Opts(unroll=34))
             lo, hi = (1 << (2 * j)) >> 16, ((1 << (2 * j + 2)) >> 16)
-            dom = z3.And(x >= val(max(lo, 0)), x < val(min(hi, XLIM)), x >= 0)
+            dom = z3.And(x >= val(max(lo, 0)), x < val(min(hi, 1 << 47)), x >= 0)     # the property's own domain
             return Ob("abacus/bmc-class-4^%d" % j, "verify", [x], [cb], dom, sqrt_contract(x, cb.out, 130), also_ub=True,
                       portfolio=("z3", "cvc5"), timeout=120 if R.quick() else 900,
                       note="plain unrolling (34 iterations) on the arguments whose first pwr4 is 4^%d" % j)
